@@ -32,6 +32,7 @@ func RegisterAll() {
 	run.Register(&c08{})
 	run.Register(&c09{})
 	run.Register(&c10{})
+	run.Register(&c11{})
 	run.Register(&c12{})
 }
 
